@@ -201,7 +201,7 @@ func caseReuse(ks *kase) {
 
 // caseReusePooled is the part of the family that goes through the package pools (used by the concurrent family).
 func caseReusePooled(ks *kase) {
-	if (ks.idx/6)%2 == 0 {
+	if (ks.idx/7)%2 == 0 {
 		reuseFixedOffset(ks)
 	} else {
 		reuseTSD(ks)
